@@ -22,7 +22,7 @@ from .. import gen as G
 
 PID = 'C04'
 RULE = ('cases = base systems of rank 1-3 (hard-core family potentials incl. attractive tails, PY/HNC/MSA closures, SingleSite/Gaussian/FJC/Ring omegas, '
-        'tabulated cross omegas) x relation in {every permutation of the type list, split of one monatomic species into A/A\' with ratio log-uniform 0.05..0.95, '
+        'tabulated cross omegas) x relation in {every permutation of the type list, split of one monatomic species into A/A\' with ratio 0.05..0.95 or log-uniform down to 1e-8 (tracer), '
         'split of an even-N Gaussian/FJC homopolymer into the halves of a symmetric diblock with exact block omegas (FromArray), energy+kT rescaling by '
         'lambda in 0.1..10}; only pairs whose base solve converges (fatol 1e-10) are judged; non-trivial = relation evaluated on a converged base with >= 2 '
         'compared result functions; distinct = distinct case digests')
@@ -134,7 +134,7 @@ def related(kind, sp, rng):
                 ps['eps'] = ps['eps'] * lam
         return sp2, {t: t for t in sp['types']}, lam, 'all epsilon and kT x %.4g' % lam
     if kind == 'split_monatomic':
-        frac = float(10 ** rng.uniform(np.log10(0.05), np.log10(0.95)))
+        frac = float(10 ** rng.uniform(-8, np.log10(0.95))) if rng.random() < 0.5 else float(rng.uniform(0.05, 0.95))
         new = 'Z'
         pos = int(rng.integers(0, len(sp['types']) + 1))
         types2 = list(sp['types'])
@@ -195,6 +195,10 @@ def run_case(ctx, case):
         raise core.Skip('base solve did not converge')
     y1 = float(np.abs(r1.fun).max())
     sp2, parent, lam, desc = related(kind, sp, rng)
+    # the reformulated system is also reached through another configuration path (domain via dk / setters, kT assigned)
+    sp2['via'] = str(rng.choice(G.VIAS))
+    sp2['kT_via'] = str(rng.choice(['ctor', 'assign']))
+    desc += ' [domain via %s, kT via %s]' % (sp2['via'], sp2['kT_via'])
     with np.errstate(all='ignore'):
         p2 = G.build(sp2).createPRISM()
     label = '%s [%s] base %s' % (kind, desc, G.spec_signature(sp))
@@ -205,7 +209,10 @@ def run_case(ctx, case):
         ym = np.asarray(p2.cost(np.array(xm)))
     ctx.hook('relation.mapped_root_residual')
     e = float(np.abs(ym).max())
-    tol = 1e-9 + 1e3 * y1
+    # rounding: the cost function forms H from a matrix whose entries span rho_min^2..rho_max^2 and divides by the pair
+    # density, so the residual of a tracer species carries noise ~ eps * rho_max/rho_min (measured 1e-16/ratio)
+    rmin = min(sp2['rho'].values()) / max(sp2['rho'].values())
+    tol = 1e-9 + 1e3 * y1 + 1e-14 / rmin
     ctx.observe('mapped_root_residual/tol', e / tol)
     if not e <= tol:
         ctx.violation('invariance:%s:mapped-root-is-not-a-root' % kind, '%s: the base solution (residual %.3g), mapped to the reformulated system, leaves a residual of %.3g' % (label, y1, e))
@@ -217,7 +224,7 @@ def run_case(ctx, case):
     y2 = float(np.abs(r2.fun).max())
     res1 = results(p1, sp['types'])
     res2 = results(p2, sp2['types'])
-    tolr = 1e-6 + 1e4 * (y1 + y2)
+    tolr = 1e-6 + 1e4 * (y1 + y2) + 1e-12 / rmin
     ncmp = 0
     which = ['g'] if kind.startswith('split') else ['g', 'S', 'pmf']
     for q in which:
